@@ -1131,7 +1131,8 @@ h2_recv_data (connection * const con, const uint8_t * const s, const uint32_t le
             return 1;
         }
         else {
-            if (!h2c->sent_goaway && 0 != alen)
+            if (0 == alen) return 1; /*(nothing to sink; keep processing frames)*/
+            if (!h2c->sent_goaway)
                 h2_send_goaway_e(con, H2_E_NO_ERROR);
             return 0;
         }
